@@ -436,8 +436,28 @@ func runC01(c *Ctx) {
 
 	// ------------------------------------------------------------------------------------------------ R3
 	c.rule("C01-R3", "poll loop: each handler invocation is guarded by kernel-mask & current interest & direction flag, the interest being re-read after any earlier handler of the same batch entry, and preceded by removing that interest", 2)
-	pollFn := p.Method("internal", "poller", "Poll")
+	pollEntry := p.Method("internal", "poller", "Poll")
+	// the dispatching function: Poll itself or the helper(s) of package internal that invoke the slot handlers
+	var dispatchFns []*ssa.Function
+	for _, fn := range p.Funcs {
+		if pk := fnTypesPkg(fn); pk == nil || pk.Path() != modPath+"/internal" {
+			continue
+		}
+		has := false
+		eachInstr(fn, func(in ssa.Instruction) {
+			if call, ok := in.(ssa.CallInstruction); ok && isDynamicFuncCall(call) {
+				if _, _, ok := handlerIndexOf(call.Common().Value, handlersF); ok {
+					has = true
+				}
+			}
+		})
+		if has {
+			dispatchFns = append(dispatchFns, fn)
+		}
+	}
 	pollHandlerCalls := 0
+	for _, pollFn := range dispatchFns {
+	pollFn := pollFn
 	eachInstr(pollFn, func(in ssa.Instruction) {
 		call, ok := in.(ssa.CallInstruction)
 		if !ok || !isDynamicFuncCall(call) {
@@ -519,15 +539,16 @@ func runC01(c *Ctx) {
 		})
 		c.check(del != nil, pollFn, "dispatch "+dname+" one-shot", in.Pos(), "the interest is removed before the handler runs", "the "+dname+" interest is not removed before its handler is invoked: a level-triggered event fires the same completion again")
 	})
+	}
 	if pollHandlerCalls == 0 {
-		c.bad(pollFn, "dispatch", pollFn.Pos(), "Poll no longer invokes slot handlers")
+		c.bad(pollEntry, "dispatch", pollEntry.Pos(), "Poll no longer invokes slot handlers")
 	}
 
 	// ------------------------------------------------------------------------------------------------ R4
 	c.rule("C01-R4", "Cancel: interest tested, removed, then the continuation is called with a non-nil error; Close: both interests are removed before the descriptor is closed", 9)
 	for _, fn := range p.Funcs {
-		if fn == pollFn {
-			continue
+		if pk := fnTypesPkg(fn); pk != nil && pk.Path() == modPath+"/internal" {
+			continue // the poll loop's own dispatch is R3
 		}
 		eachInstr(fn, func(in ssa.Instruction) {
 			call, ok := in.(ssa.CallInstruction)
@@ -634,7 +655,12 @@ func runC01(c *Ctx) {
 
 	// ------------------------------------------------------------------------------------------------ R5
 	c.rule("C01-R5", "EPOLLHUP/EPOLLERR are folded into both directions before the dispatch guards (they are reported without EPOLLIN/EPOLLOUT, e.g. FIFO writer gone)", 1)
-	checkHangupFolding(c, pollFn, readFlag, writeFlag)
+	for _, df := range dispatchFns {
+		checkHangupFolding(c, df, readFlag, writeFlag)
+	}
+	if len(dispatchFns) == 0 {
+		c.bad(pollEntry, "hang-up folding", pollEntry.Pos(), "no dispatching function found")
+	}
 }
 
 func sameValueConst(v ssa.Value, k int64) bool { return isConstInt(v, k) }
